@@ -2,7 +2,7 @@
 From Coq Require Import List NArith ZArith Bool Lia ZifyBool ZifyNat ZifyN Arith.
 From Mila Require Import Lib.Bytes Lib.BytesExtra Lib.Machine Model.BinArchive Model.BinStreams Model.BinFormat Model.ASet
   Proofs.AMapLemmas Proofs.BinAccess Proofs.BinAccess2 Proofs.RecsCells Proofs.RecsBytes Proofs.RecsBinBridge
-  Proofs.ASetBits Proofs.ASetWrite Proofs.ASetRead.
+  Proofs.ASetBits Proofs.ASetWrite Proofs.ASetRead Proofs.RecsDataSize.
 Import ListNotations.
 Local Open Scope N_scope.
 Ltac Zify.zify_post_hook ::= Z.div_mod_to_equations.
@@ -61,6 +61,16 @@ Proof.
   intros W. destruct (round_trip_archive v W) as (a & B & _ & E). exists a. split; [exact B|]. subst a.
   rewrite size_built. unfold file_cells. rewrite !cells_size_app, cells_size_strs, (proj1 W), sets_cells_size.
   change (cells_size (header_cells v)) with 12. lia.
+Qed.
+
+(* ... and this is the data-size field (offset 4) of the file image *)
+Theorem space_file_bytes m v f : wf_aset v -> 12 + 4 * 257 + sets_space (as_sets v) < 2 ^ 32 ->
+  serialize m v = Ok f -> u32_at LE f 4 = Some (12 + 4 * 257 + sets_space (as_sets v)).
+Proof.
+  intros W Hs S. destruct (space_file v W) as (a & B & Sz). unfold serialize in S. rewrite B in S. cbn [bind] in S.
+  destruct (round_trip_archive v W) as (a0 & B0 & _ & E). rewrite B in B0.
+  assert (Ea : a = built v) by congruence.
+  rewrite <- Sz. change LE with (a_endian (built v)). rewrite <- Ea. apply (serialize_data_size m a f); [rewrite Ea; reflexivity | lia | exact S].
 Qed.
 
 (* one set record *)
